@@ -316,9 +316,20 @@ def tail_rows(F):
     with the `can be a tail call` flag: 'no' (constant false), 'yes' (constant true) or 'inherit' (anything computed)"""
     out = []
 
-    def cls(body, x):
+    def cls(body, x, depth=0):
         if x["k"] == "const":
-            return "yes" if x.get("v") else "no"
+            if isinstance(x.get("v"), int):
+                return "yes" if x.get("v") else "no"
+            return "inherit"
+        # a flag type with two field-less variants instead of bool: the constant variant is reported by name
+        if x["k"] in ("copy", "move") and not x["p"] and depth < 4:
+            ds = [st["rv"] for bb, si, st in body.assigns() if st["p"]["l"] == x["l"] and not st["p"]["p"]]
+            if len(ds) == 1:
+                rv = ds[0]
+                if rv["k"] == "agg" and rv.get("ak") == "adt" and not rv["xs"]:
+                    return "enum:%s" % rv["v"]
+                if rv["k"] == "use":
+                    return cls(body, rv["x"], depth + 1)
         return "inherit"
     for name in ANALYZE:
         fn = F.fn("<%s>::%s" % (A, name))
@@ -330,6 +341,8 @@ def tail_rows(F):
                 continue
             flags = [x for x in t["xs"] if (x["k"] == "const" and body.ty(x["t"])["s"] == "bool") or
                      (x["k"] in ("copy", "move") and body.ty(x["t"])["s"] == "bool")]
+            if not flags and len(t["xs"]) >= 4:
+                flags = [t["xs"][-1]]       # the flag parameter is the last one, whatever its type (bool or a two-variant enum)
             if not flags:
                 continue
             out.append({"fn": fn.q, "child": fl.ast_path(t["xs"][1]), "flag": cls(body, flags[-1]), "site": body.span(t["sp"])})
@@ -343,6 +356,8 @@ def tail_rows(F):
                 if n != "<%s>::analyze_expr" % A:
                     continue
                 flags = [x for x in t["xs"] if "t" in x and clo.body.ty(x["t"])["s"] == "bool"]
+                if not flags and len(t["xs"]) >= 4:
+                    flags = [t["xs"][-1]]
                 for pbb, pt in body.calls():
                     for x in pt["xs"]:
                         if "t" in x and body.ty(x["t"]).get("d") == clo.q:
